@@ -116,6 +116,10 @@ func permutations(n int) [][]int {
 	return out
 }
 
+type acceptAllValidator struct{}
+
+func (acceptAllValidator) Validate(*specs.Spec) error { return nil }
+
 func checkC06(c *Ctx) {
 	maxN := c.pick(3, 4)
 	c.Rule = fmt.Sprintf("exhaustive: every subset of the 7 version-gated features x every placement (spec level or device k of n, n=1..%d) x every device permutation x %d declared version strings; ReadSpec on files for a 1/%d sample; distinct_nontrivial = distinct (n, placement vector) combinations with at least one feature in a non-last device or with >=2 features of different versions", maxN, len(c06Declared), c.pick(16, 4))
@@ -132,9 +136,29 @@ func checkC06(c *Ctx) {
 		}
 	}
 	sampleEvery := c.pick(16, 4)
-	c.RunNamed(names, 0, func(cs *Case) {
+	// second pass ("v:" cases): the same enumeration with an accepting external Spec
+	// validator installed, as the cdi tool always has one: what an external
+	// validator says never replaces the version rule
+	all := append([]string{}, names...)
+	for _, nm := range names {
+		all = append(all, "v:"+nm)
+	}
+	installed := false
+	defer func() { cdi.SetSpecValidator(nil) }()
+	c.RunNamed(all, 0, func(cs *Case) {
 		var n, p0, p1 int
-		fmt.Sscanf(cs.Name, "enum:%d.%d.%d", &n, &p0, &p1)
+		if strings.HasPrefix(cs.Name, "v:") {
+			c.mu.Lock()
+			if !installed {
+				// (cases are handed out in order: every case of the first pass has been taken by now;
+				// the validator accepts everything, so it cannot change what the first pass expects)
+				cdi.SetSpecValidator(acceptAllValidator{})
+				installed = true
+			}
+			c.mu.Unlock()
+			c.Count("cases_with_external_validator_installed", 1)
+		}
+		fmt.Sscanf(strings.TrimPrefix(cs.Name, "v:"), "enum:%d.%d.%d", &n, &p0, &p1)
 		perms := permutations(n)
 		place := make([]int, len(c06Features))
 		place[0], place[1] = p0, p1
@@ -293,4 +317,5 @@ func checkC06(c *Ctx) {
 	c.Sample(3, map[string]any{"n_devices": 3, "placement": "hostPath in device 2 of 3, annotations at spec level", "expected_minimum": "0.6.0", "declared_tried": strings.Join(c06Declared, "|")})
 	c.Floor("specs_feature_in_non_last_device", 100)
 	c.Floor("readspec_checked", 100)
+	c.Floor("cases_with_external_validator_installed", 10)
 }
